@@ -78,6 +78,11 @@ func runC08Seq(rc *RunCtx) *simkit.Violation {
 		curRepo = ""
 		for _, r := range repos {
 			lt, v := doOp(prop, w, cl, "list "+r, func() (interface{}, error) {
+				if t.Bool(1, 3) {
+					var ls []model.LabelDescriptor
+					err := core.ListLabelsApply(r, st, func(x model.LabelDescriptor) error { ls = append(ls, x); return nil }, core.BatchSize(t.Pick(1, 2, 3, 1024)), core.ConcurrentList(t.Pick(1, 4)))
+					return ls, err
+				}
 				return core.ListLabels(r, st, core.BatchSize(t.Pick(1, 2, 3, 1024)), core.ConcurrentList(t.Pick(1, 4)))
 			})
 			if v != nil {
